@@ -81,7 +81,7 @@ def universes(
     for k, (l, ln) in enumerate(zip(letters, lens)):
         kind = draw(st.sampled_from(list(kinds)))
         its = items_for(l, k, ln, kind)
-        if kind in ("int", "uint") and not zero_used and draw(st.integers(0, 3)) == 0:
+        if kind in ("int", "uint") and not zero_used and ln <= 99 and draw(st.integers(0, 3)) == 0:
             # labels may be falsy (0) or negative: one dimension counts from 0 (age cohorts, indices)
             zero_used = True
             off = draw(st.sampled_from([0, 0, -1]))
